@@ -1,6 +1,7 @@
 """Obligations that are not generated from one function's contract: the once-only gate rule for concurrent
 terminations (C04 asyncio clause, C20 threads), stability lemmas over the manager contracts, twin normal forms (C14)."""
 import ast
+import json
 import time
 import z3
 from pyvc import smt, source
@@ -236,10 +237,40 @@ def cluster_lemmas(seed):
     return out
 
 
+def bounded_codec(prop):
+    """BOUNDED stand-in (never counted as proved): exhaustive native run of the real codec over a finite packet grammar
+    against a specification-derived codec (bounded/codec.py)."""
+    from . import replays
+    t0 = time.time()
+    want = {'C01': ('codec.',), 'C02': ('codec.roundtrip', 'codec.encode-leaves-the-payload-untouched', 'msgpack.')}[prop]
+    try:
+        res = replays.run_codec()
+    except Exception as e:      # noqa: BLE001
+        return [ob('bounded/codec', 'undecided', 'bounded', t0, str(e), backend='bounded-enumeration')]
+    out = []
+    for name, r in sorted(res['checks'].items()):
+        if not name.startswith(want):
+            continue
+        d = ob('bounded/' + name, 'refuted' if r['failures'] else 'bounded', 'bounded', t0, backend='bounded-enumeration',
+               function='packet.Packet.encode/decode, _deconstruct_binary_internal, _reconstruct_binary_internal' if name.startswith('codec') else 'msgpack_packet.MsgPackPacket.encode/decode',
+               why=[json.dumps(f) for f in r['failures']] or None)
+        d['cases'] = r['checked']
+        d['bound'] = res['bound']
+        if r['failures']:
+            d['model'] = 'failing input (native run): %s' % json.dumps(r['failures'][0])
+        out.append(d)
+    return out
+
+
 def run(prop, tier, seed):
     out = []
+    if prop in ('C01', 'C02'):
+        out += bounded_codec(prop)
     if prop == 'C07':
         out += cluster_lemmas(seed)
+    if prop == 'C02':
+        from . import transparency
+        out += transparency.lemmas(seed)
     if prop == 'C19':
         from . import simple
         out += simple.lemmas(seed)
